@@ -25,6 +25,7 @@ EXTENDS Lut, TLC
 
 CONSTANTS Block,      \* classes per enumeration block (parallelism only)
           ClsStride,  \* 1: every class; n: every n-th (only for the coverage run)
+          Stride8,    \* 1: every 8-bit code gets the per-code checks; n: every n-th (only for the coverage run)
           Stride16,   \* every Stride16-th 16-bit code gets the per-code checks (1 = all)
           Emit        \* print REPLAY lines
 
@@ -54,7 +55,7 @@ Cls8 == /\ phase = "blk8"
              /\ k < NEff8(enc) /\ (k % ClsStride = 0 \/ k = NEff8(enc) - 1)
              /\ LET b == ClassFirst8(enc, k) + ((k * 37) % 4096) IN FromLinearInt(enc, 0, b, Encode8(enc, 0, b))
              /\ Goto("cls8", k)
-Code8 == phase = "codes8" /\ (\E k \in 0..255 : Goto("code8", k)) /\ UNCHANGED vars
+Code8 == phase = "codes8" /\ (\E k \in 0..255 : (k % Stride8 = 0 \/ k = 255) /\ Goto("code8", k)) /\ UNCHANGED vars
 Seg16 == /\ phase = "segs16"
          /\ \E i \in 0..SegTop16(enc) :
               /\ LET b == Min16(enc) + 65536 * i + ((i * 37) % 65536) IN FromLinearInt(enc, 0, b, Encode16(enc, 0, b))
@@ -199,7 +200,7 @@ ASSUME \A b \in {1, 4194304, 8388607, 8388608, 8388609, 956301312, 1065353215, 1
 ASSUME Succ(<<1, 0>>) = <<0, 1>> /\ Pred(<<0, 0>>) = <<1, 1>> /\ Succ(<<1, 5>>) = <<1, 4>> /\ Pred(<<1, 5>>) = <<1, 6>>
 
 (* points of the published curves computed independently (60-digit decimal arithmetic), as f64: accepted, and
-   rejected when the encoded value is moved by 2^-36 relative (the f64 tolerance is 2^-46) *)
+   rejected when the encoded value is moved by 2^-36 relative (the f64 tolerance is 2^-44, 2^-41 for Rec.) *)
 TV(curve, jx, jy) ==
   LET x == Dy(jx)  y == Dy(jy)
   IN /\ CurveOK(curve, "f64", x, y)
